@@ -229,6 +229,29 @@ theorem sheet_a1_roundtrip (cc : CharClass) (hcc : CharClassOK cc) (n : List Cha
   rw [e, List.append_assoc, List.cons_append]
   exact quote_roundtrip cc hcc n _ hne
 
+/-! ### injectivity: distinct names / cells never share a spelling (corollaries of the round trips) -/
+
+/-- quote_name is injective on non-empty names: two sheets can never be written the same way -/
+theorem quoteName_injective (cc : CharClass) (hcc : CharClassOK cc) (n m : List Char)
+    (hn : n ≠ []) (hm : m ≠ []) (h : quoteName cc n = quoteName cc m) : n = m := by
+  have e1 := quote_roundtrip cc hcc n [] hn
+  have e2 := quote_roundtrip cc hcc m [] hm
+  rw [h, e2] at e1
+  exact ((Prod.mk.inj (Option.some.inj e1)).1).symm
+
+/-- the A1 printer is injective on in-grid references seen from one context cell -/
+theorem printA1_injective (cr cc : Int) (r r' : PRef) (hg : InGrid cr cc r) (hg' : InGrid cr cc r')
+    (h : printA1 [] cr cc r false false = printA1 [] cr cc r' false false) : r = r' := by
+  have e1 := (a1_roundtrip cr cc r [] hg rfl).1
+  have e2 := (a1_roundtrip cr cc r' [] hg' rfl).1
+  rw [h, e2] at e1
+  have ht : tokenOf cr cc r' = tokenOf cr cc r := by
+    have := (Prod.mk.inj (Option.some.inj e1)).1
+    injection this
+  have k1 := (a1_roundtrip cr cc r [] hg rfl).2
+  have k2 := (a1_roundtrip cr cc r' [] hg' rfl).2
+  rw [← k1, ← k2, ht]
+
 /-! ### obligations on the extracted character classes, and the pinned tree's defects -/
 
 /-- the running code's character classes satisfy what the theorems assume -/
@@ -255,5 +278,11 @@ theorem whole_sheet_pinned_not_roundtrip :
         { column := 16384, row := 1048576, absCol := true, absRow := true } = [':']
       ∧ consumeRangeA1 [':'] = none := by
   constructor <;> decide +kernel
+
+/-- non-vacuity of `quoteName_injective` on the extracted classes -/
+example : quoteName unicodeCC "My Sheet".toList ≠ quoteName unicodeCC "MySheet".toList := by
+  intro h
+  have := quoteName_injective unicodeCC unicodeCC_ok _ _ (by decide) (by decide) h
+  exact absurd this (by decide)
 
 end IronCalc.Codec
